@@ -83,11 +83,11 @@ Proof.
   intros w x mix Hm Fw Fx.
   assert (E1 : exists s, sqrt32 (oclamp mix (Z32 0) (Z32 1)) = B754_zero s)
     by (destruct Hm; subst; eexists; vm_compute; reflexivity).
-  assert (E2 : exists H, sqrt32 (sub32 (Z32 1) (oclamp mix (Z32 0) (Z32 1))) = B754_finite false 8388608 (-23) H)
-    by (destruct Hm; subst; eexists; vm_compute; reflexivity).
-  destruct E1 as [s E1]. destruct E2 as [H1 E2]. rewrite E1, E2.
-  assert (Ex : mul32 x (B754_finite false 8388608 (-23) H1) = x).
-  { apply (Bmult_one_r 24 128 x); auto. vm_compute. lra. }
+  set (one := sqrt32 (sub32 (Z32 1) (oclamp mix (Z32 0) (Z32 1)))).
+  assert (E2 : is_finite one = true /\ Bsign one = false /\ B2R one = 1%R).
+  { subst one. destruct Hm; subst; (split; [vm_compute; reflexivity|split; [vm_compute; reflexivity|vm_compute; lra]]). }
+  destruct E1 as [s E1]. destruct E2 as (O1 & O2 & O3). rewrite E1.
+  assert (Ex : mul32 x one = x) by (apply (Bmult_one_r 24 128 x one); auto).
   rewrite Ex.
   assert (Ew : exists s', mul32 w (B754_zero s) = B754_zero s') by (destruct w; try discriminate; eexists; reflexivity).
   destruct Ew as [s' Ew]. rewrite Ew.
@@ -121,7 +121,10 @@ Theorem volume_0dB_identity_b32 : forall (pw : f32 -> f32) (db : f32) (x : frame
     volume_step (db_amp pw (eff db)) x = x.
 Proof.
   intros pw db [l r] Hdb Fl Fr. cbn [fst snd] in *.
-  assert (E : db_amp pw (eff db) = Z32 1) by (destruct Hdb; subst; vm_compute; reflexivity).
+  assert (E : db_amp pw (eff db) = Z32 1).
+  { unfold db_amp.
+    assert (E0 : oeqb (eff db) (oZ 0) = true) by (destruct Hdb; subst; vm_compute; reflexivity).
+    rewrite E0. reflexivity. }
   rewrite E. unfold volume_step, fr_scale. cbn [fst snd omul Ops_f32].
   rewrite (mul32_one l Fl), (mul32_one r Fr). reflexivity.
 Qed.
